@@ -190,6 +190,43 @@ def rule_u4(repo, col):
                    construct="def _builtin_eq: unifier returned", function=fe.name)
 
 
+def rule_u7(repo, col):
+    """unify_call_return: the bindings sent back to the caller are dereferenced through the caller-side links (tv) before unknown variables are renamed: an answer variable that
+    the unifier linked to another caller variable must come back as that variable"""
+    f = repo.func("problog.engine_unify", "unify_call_return")
+    m = f.module
+    # the two maps handed to unify_value_dc
+    calls = [c for c in ast.walk(f.node) if isinstance(c, ast.Call) and dotted(c.func) == "unify_value_dc" and len(c.args) == 4]
+    if len(calls) != 1 or not all(isinstance(a, ast.Name) for a in calls[0].args[2:]):
+        raise AnalysisError("unify_call_return: unify_value_dc(c, r, sv, tv) not found")
+    sv, tv = calls[0].args[2].id, calls[0].args[3].id
+    comps = [st for st in walk_no_nested(f.node) if isinstance(st, ast.Assign) and isinstance(st.targets[0], ast.Name) and st.targets[0].id == sv and isinstance(st.value, ast.DictComp)
+             and len(st.value.generators) == 1 and norm(st.value.generators[0].iter) == "%s.items()" % sv and st.lineno > calls[0].lineno]
+    comps.sort(key=lambda st_: st_.lineno)
+    if not comps:
+        raise AnalysisError("unify_call_return: rewriting passes over %s not found" % sv)
+    deref_at = None
+    subst_at = None
+    for i, st in enumerate(comps):
+        tg = st.value.generators[0].target
+        if not (isinstance(tg, ast.Tuple) and len(tg.elts) == 2 and all(isinstance(e_, ast.Name) for e_ in tg.elts)):
+            raise AnalysisError("unify_call_return: comprehension target not understood")
+        v = tg.elts[1].id
+        val = norm(st.value.value)
+        if "%s.get(%s, %s)" % (tv, v, v) in val or "%s[%s] if %s in %s else %s" % (tv, v, v, tv, v) in val:
+            if deref_at is None:
+                deref_at = i
+        if "substitute_all(" in val and subst_at is None:
+            subst_at = i
+    if subst_at is None:
+        raise AnalysisError("unify_call_return: the renaming pass (substitute_all) was not found")
+    ok = deref_at is not None and deref_at <= subst_at
+    col.decide("U7", m, comps[subst_at], ok, "answer bindings are dereferenced through %s before unknown variables are renamed" % tv,
+               "unify_call_return renames the answer bindings (substitute_all) without first replacing a bound value that is itself a linked caller variable by %s.get(v, v): for the call "
+               "h(g(X,Y),g(Y,Y)) against the head h(U,U) the caller gets X and Y back as two different variables instead of X = Y" % tv,
+               construct="unify_call_return: dereference through %s before renaming" % tv, function="unify_call_return")
+
+
 def run(repo, col):
     col.rule("U1", "case coverage of unify_value / unify_value_dc")
     col.rule("U2", "occurs check before binding")
@@ -199,3 +236,5 @@ def run(repo, col):
     col.rule("U6", "(var,var): both variables get bound")
     rule_u1_u3(repo, col)
     rule_u4(repo, col)
+    col.rule("U7", "call return: bindings dereferenced before renaming")
+    rule_u7(repo, col)
